@@ -425,7 +425,56 @@ func siteFromCrash(stderr string) string {
 			break
 		}
 	}
+	if head == "fatal error: stack overflow" {
+		// name the recursion as well: the functions that fill the top of the dumped stack
+		if rec := recursingFuncs(lines); rec != "" {
+			return "crash:" + head + ":in:" + rec
+		}
+	}
 	return "crash:" + fn + ":" + head
+}
+
+// recursingFuncs returns the (at most three, sorted) functions that occur at least five times among the first
+// frames of the running goroutine in a stack-overflow dump.
+func recursingFuncs(lines []string) string {
+	start := -1
+	for i, ln := range lines {
+		if strings.HasPrefix(ln, "goroutine ") && strings.Contains(ln, "[running]") {
+			start = i + 1
+			break
+		}
+	}
+	if start < 0 {
+		return ""
+	}
+	count := map[string]int{}
+	frames := 0
+	for _, ln := range lines[start:] {
+		if ln == "" || strings.HasPrefix(ln, "...") || frames >= 48 {
+			break
+		}
+		if strings.HasPrefix(ln, "\t") || strings.HasPrefix(ln, " ") {
+			continue
+		}
+		f := ln
+		if i := strings.LastIndex(f, "("); i > 0 {
+			f = f[:i]
+		}
+		f = strings.TrimPrefix(f, "github.com/goplus/xgo/")
+		count[f]++
+		frames++
+	}
+	var names []string
+	for f, n := range count {
+		if n >= 5 {
+			names = append(names, f)
+		}
+	}
+	sort.Strings(names)
+	if len(names) > 3 {
+		names = names[:3]
+	}
+	return strings.Join(names, "+")
 }
 
 // ---- verdict ----
@@ -553,18 +602,18 @@ func (d *Driver) Finish() int {
 		exh = e.Exhaustive()
 	}
 	cov := map[string]any{
-		"evaluations":         d.Evals,
-		"distinct_nontrivial": d.Distinct,
-		"rule":                p.Rule(),
-		"samples":             d.Samples,
-		"exhaustive":          exh,
-		"skipped_out_of_domain": d.Skipped,
-		"skip_reasons":        d.SkipWhy,
-		"observed":            cover,
-		"floors":              floors,
+		"evaluations":             d.Evals,
+		"distinct_nontrivial":     d.Distinct,
+		"rule":                    p.Rule(),
+		"samples":                 d.Samples,
+		"exhaustive":              exh,
+		"skipped_out_of_domain":   d.Skipped,
+		"skip_reasons":            d.SkipWhy,
+		"observed":                cover,
+		"floors":                  floors,
 		"known_findings_observed": knownLines,
-		"new_violation_sites": siteOrder,
-		"inconclusive":        d.Inconcl,
+		"new_violation_sites":     siteOrder,
+		"inconclusive":            d.Inconcl,
 	}
 	for k, v := range d.Extra {
 		cov[k] = v
